@@ -97,7 +97,7 @@ def attr_case(maxlen):
             size = ctx.int("size", 0, 8)
             a.st_size = size
         if has_mode:
-            mode = ctx.int("mode", 0, 0o777)
+            mode = ctx.int("mode", 0, 0o7777)
             a.st_mode = mode
         if has_times:
             at = ctx.int("atime", 0, 2 ** 31 - 1)
@@ -126,7 +126,7 @@ def attr_case(maxlen):
                 with open(fn_, "rb") as f:
                     new = f.read()
                 st = os.stat(fn_)
-                newmode = (st.st_mode & 0o777) if has_mode else None
+                newmode = (st.st_mode & 0o7777) if has_mode else None
                 newtimes = (int(st.st_atime), int(st.st_mtime)) if has_times else None
             finally:
                 shutil.rmtree(d, ignore_errors=True)
@@ -157,7 +157,7 @@ def attr_case(maxlen):
     return Case("set_file_attr", fn,
                 ["size-becomes-the-requested-size", "truncate-keeps-the-leading-bytes", "extension-pads-with-zeros",
                  "content-untouched-without-a-size-change", "permissions-as-os.chmod", "times-as-os.utime"],
-                {"content": "0..%d symbolic bytes" % maxlen, "size": "0..8", "mode": "0..0o777", "times": "0..2^31-1"})
+                {"content": "0..%d symbolic bytes" % maxlen, "size": "0..8", "mode": "0..0o7777 (permission, setuid, setgid and sticky bits)", "times": "0..2^31-1"})
 
 
 def cases(tier):
